@@ -919,7 +919,8 @@ def rt_delimited(acc, header, rows, conf, case, probe=False):
             g2 = load_table(path, reader=FilteringParser(with_header=True, sep="\t"))
             gh2 = [str(h) for h in g2.header]
             grows2 = [[str(x) for x in r] for r in g2.array.tolist()]
-            want2 = [[expected_text(v) for v in r] for r in rows if any(expected_text(v) != "" for v in r)]
+            # judged against what the default loader made of the same file (text that reads as a number is a number for both)
+            want2 = [[str(x) for x in gr] for r, gr in zip(rows, g.array.tolist()) if any(expected_text(v) != "" for v in r)]
             if gh2 != list(header) or grows2 != want2:
                 fail("load_table(reader=FilteringParser): header / cells differ from the default loader [plain cells, possibly empty]",
                      {"got_header": gh2, "got": grows2[:4], "want": want2[:4], "text": text[:300]})
